@@ -35,6 +35,38 @@ class Opaque:
         return "<opaque %s>" % self.what
 
 
+class FuncRef(Opaque):
+    """A module-level function of the package.  Only single-`return <expr>` functions whose expression lies in the
+    folder's pure subset are ever inlined (e.g. termformatconstants.seq)."""
+
+    def __init__(self, name, node, mod):
+        Opaque.__init__(self, "FunctionDef %s" % name)
+        self.name, self.node, self.mod = name, node, mod
+
+    def simple_return(self):
+        body = [s for s in self.node.body if not (isinstance(s, ast.Expr) and isinstance(s.value, ast.Constant))]
+        if len(body) == 1 and isinstance(body[0], ast.Return) and body[0].value is not None and \
+                not self.node.decorator_list and not self.node.args.vararg and not self.node.args.kwarg:
+            return body[0].value
+        return None
+
+
+class Record:
+    """An object with known attribute values (models `self` when a method is folded on one domain element)."""
+
+    def __init__(self, **fields):
+        self.fields = fields
+
+    def __repr__(self):
+        return "<record %s>" % sorted(self.fields)
+
+
+class SymStr(str):
+    """A symbolic piece of text: it may be concatenated / formatted into other strings (where it shows up as itself,
+    a private-use marker), but any inspection of it (methods, comparison, truth value, len) is Unknown - code whose
+    decisions depend on the text is thereby detected instead of being evaluated on one sample text."""
+
+
 class ModRef:
     """Reference to another module of the package (from . import events)."""
 
@@ -65,6 +97,7 @@ SAFE_BUILTINS = {
     "set": set, "list": list, "tuple": tuple, "sorted": sorted, "str": str, "int": int, "bytes": bytes,
     "frozenset": frozenset, "any": any, "all": all, "sum": sum, "enumerate": enumerate, "bool": bool,
     "repr": repr, "abs": abs, "reversed": reversed, "True": True, "False": False, "None": None,
+    "isinstance": isinstance, "type": type,
 }
 SAFE_METHODS = {
     str: {"encode", "lower", "upper", "startswith", "endswith", "format", "join", "split", "strip", "lstrip",
@@ -144,7 +177,9 @@ class Folder:
     def stmt(self, st, env, mod):
         self.tick()
         try:
-            if isinstance(st, (ast.FunctionDef, ast.AsyncFunctionDef, ast.ClassDef)):
+            if isinstance(st, ast.FunctionDef):
+                env[st.name] = FuncRef(st.name, st, mod)
+            elif isinstance(st, (ast.AsyncFunctionDef, ast.ClassDef)):
                 env[st.name] = Opaque("%s %s" % (type(st).__name__, st.name))
             elif isinstance(st, ast.ImportFrom):
                 for a in st.names:
@@ -285,6 +320,8 @@ class Folder:
         if isinstance(n, ast.UnaryOp):
             v = E(n.operand)
             self._plain(v)
+            if isinstance(v, SymStr):
+                raise Unknown("truth value of symbolic text")
             if isinstance(n.op, ast.Not):
                 return not v
             if isinstance(n.op, ast.USub):
@@ -297,23 +334,32 @@ class Folder:
                 v = True
                 for x in n.values:
                     v = E(x)
+                    if isinstance(v, SymStr):
+                        raise Unknown("truth value of symbolic text")
                     if not v:
                         return v
                 return v
             v = False
             for x in n.values:
                 v = E(x)
+                if isinstance(v, SymStr):
+                    raise Unknown("truth value of symbolic text")
                 if v:
                     return v
             return v
         if isinstance(n, ast.IfExp):
-            return E(n.body) if E(n.test) else E(n.orelse)
+            t = E(n.test)
+            if isinstance(t, SymStr):
+                raise Unknown("truth value of symbolic text")
+            return E(n.body) if t else E(n.orelse)
         if isinstance(n, ast.Compare):
             l = E(n.left)
             self._plain(l)
             for op, c in zip(n.ops, n.comparators):
                 r = E(c)
                 self._plain(r)
+                if isinstance(l, SymStr) or isinstance(r, SymStr):
+                    raise Unknown("comparison with symbolic text")
                 if not _CMPOPS[type(op)](l, r):
                     return False
                 l = r
@@ -367,6 +413,12 @@ class Folder:
             v = E(n.value)
             if v is itertools and n.attr == "chain":
                 return itertools.chain
+            if isinstance(v, Record):
+                if n.attr not in v.fields:
+                    raise Unknown("attribute %s of %r" % (n.attr, v))
+                return v.fields[n.attr]
+            if isinstance(v, SymStr):
+                raise Unknown("inspection of symbolic text (.%s)" % n.attr)
             if isinstance(v, ModRef):
                 menv = self.module(v.name)
                 if n.attr not in menv or menv[n.attr] is TOP:
@@ -403,7 +455,7 @@ class Folder:
                 else:
                     kw[k.arg] = E(k.value)
             for a in list(args) + list(kw.values()):
-                if isinstance(a, (Opaque, Lam, Partial)) and not isinstance(f, Lam):
+                if isinstance(a, (Opaque, Lam, Partial)) and not isinstance(f, (Lam, FuncRef)):
                     raise Unknown("opaque argument")
             if isinstance(f, Lam):
                 e2 = dict(f.env)
@@ -417,6 +469,31 @@ class Folder:
                     e2[p] = a
                 e2.update(kw)
                 return self.expr(f.node.body, e2)
+            if any(isinstance(a, SymStr) for a in list(args) + list(kw.values())) and not isinstance(f, (Lam, FuncRef)):
+                ok_fn = f in (str,) or (getattr(f, "__name__", "") in ("format", "join") and
+                                          isinstance(getattr(f, "__self__", None), str))
+                if not ok_fn:
+                    raise Unknown("symbolic text passed to %s" % getattr(f, "__name__", f))
+            if isinstance(f, FuncRef):
+                body = f.simple_return()
+                if body is None:
+                    raise Unknown("call of %r (not a single-return function)" % f)
+                ps = f.node.args
+                names = [p.arg for p in ps.posonlyargs + ps.args]
+                if len(args) > len(names):
+                    raise Unknown("call arity")
+                e2 = dict(self.module(f.mod))
+                for p, d in zip(names[::-1], ps.defaults[::-1]):
+                    e2[p] = self.expr(d, e2)
+                for p, a in zip(names, args):
+                    e2[p] = a
+                for k2, v2 in kw.items():
+                    if k2 not in names:
+                        raise Unknown("unexpected keyword")
+                    e2[k2] = v2
+                if any(nm not in e2 for nm in names):
+                    raise Unknown("missing argument")
+                return self.expr(body, e2)
             if isinstance(f, (Opaque, Partial)) or f is TOP:
                 raise Unknown("call of %r" % f)
             if not callable(f):
@@ -429,7 +506,7 @@ class Folder:
 
     @staticmethod
     def _plain(v):
-        if isinstance(v, (Opaque, Lam, Partial, ModRef)) or v is TOP:
+        if isinstance(v, (Opaque, Lam, Partial, ModRef, Record)) or v is TOP:
             raise Unknown("opaque operand")
 
 
